@@ -746,6 +746,16 @@ func (p *Core) applyTap(ci int, t Tap, res []*sim.TxResult) {
 		if t.PIdx == 0 {
 			ps.TmoCb++
 		}
+	case "resend":
+		w.Stats.Probe("application_resent_from_timeout_callback")
+		if ps.Ordered && !ps.V2 {
+			// C14: by the time the application hears of the timeout the ORDERED channel is closed
+			if t.OK {
+				w.Violate("C14", "send-accepted-inside-timeout-callback", "", fmt.Sprintf("%s: the application sent a new packet (sequence %d) on %s from inside the timeout callback of an ORDERED channel, which that very timeout closes", ps.Pkt, t.Seq, t.ID))
+			} else {
+				w.Stats.Probe("resend_from_ordered_timeout_callback_refused")
+			}
+		}
 	}
 }
 
